@@ -158,7 +158,8 @@ impl<'a> ScriptedDriver for Env<'a> {
       let am = self.arrival_menu();
       let n_arr = am.len();
       let mut menu: Vec<&'static str> = vec![];
-      if t_us.is_some() && self.ticks_left > 0 {
+      // a time-out of more than ~11 days never comes within any history considered here
+      if t_us.map(|t| t < 1_000_000_000_000).unwrap_or(false) && self.ticks_left > 0 {
         menu.push("timeout");
         if self.devs_left > 0 { for _ in &self.cfg.late_us { menu.push("timeout-late"); } }
       }
@@ -172,7 +173,7 @@ impl<'a> ScriptedDriver for Env<'a> {
       let c = self.choose(n_arr + menu.len());
       if c < n_arr {
         label = "arrival";
-        if let Some(t) = t_us {
+        if let Some(t) = t_us.filter(|t| *t < 1_000_000_000_000) {
           if t > 1 {
             let nd = if self.cfg.exact_deadline_arrival { 3 } else { 2 };
             match self.choose(nd) { 1 => clock_advance_us(t - 1), 2 => clock_advance_us(t), _ => {} }
@@ -204,7 +205,7 @@ impl<'a> ScriptedDriver for Env<'a> {
             label = "timeout-late"; ret = PollRet::TimedOut;
           }
           "timeout-spurious" => { self.devs_left -= 1; label = "timeout-spurious"; ret = PollRet::TimedOut; }
-          _ => { self.devs_left -= 1; if let Some(t) = t_us { if t > 1 { clock_advance_us(t / 2); } } label = "interrupted"; ret = PollRet::Interrupted; }
+          _ => { self.devs_left -= 1; if let Some(t) = t_us.filter(|t| *t < 1_000_000_000_000) { if t > 1 { clock_advance_us(t / 2); } } label = "interrupted"; ret = PollRet::Interrupted; }
         }
       }
     }
@@ -383,7 +384,7 @@ pub fn judge(layout: &Layout, x: &Exec) -> (Option<Discrepancy>, Stats) {
             if *after_us > due { st.late_ticks += 1; }
             if keys.iter().any(|k| held.contains(k)) { st.chords_with_held_key += 1; }
             chord = Some(chord_for(&keys, &held));
-            timer = Some((keys, due + interval, interval));
+            timer = Some((keys, due.saturating_add(interval), interval));
           }
         }
         let _ = label;
@@ -410,7 +411,7 @@ pub fn judge(layout: &Layout, x: &Exec) -> (Option<Discrepancy>, Stats) {
           let acted = if absorbable.contains(&k) { r.repeat != ResultingRepeat::NoChange } else { press != held_before };
           if press { if !held_before { phys.push(k); } } else { phys.retain(|x| *x != k); }
           match (acted, r.repeat) {
-            (true, ResultingRepeat::Repeating { keys, delay_ms, interval_ms }) => { st.timers_started += 1; timer_cancelled_by_tablet = false; timer = Some((keys, at_us + (delay_ms as u64) * 1000, (interval_ms as u64) * 1000)); }
+            (true, ResultingRepeat::Repeating { keys, delay_ms, interval_ms }) => { st.timers_started += 1; timer_cancelled_by_tablet = false; timer = Some((keys, at_us.saturating_add((delay_ms as u64).saturating_mul(1000)), (interval_ms as u64).saturating_mul(1000))); }
             (true, _) => { if timer.is_some() { st.timers_cancelled_by_event += 1; } timer = None; }
             (false, _) => { if timer.is_some() { st.ignored_event_during_timer += 1; } }
           }
